@@ -230,9 +230,12 @@ func timeCountMap(s *rfl.Stream) *hmap.IntKeyMap {
 		return nil
 	}
 	n := s.LenSmall(4)
+	if !largeRecords && s.Intn(30) == 1 {
+		n = []int{999, 1000, 1001, 1001 + s.Intn(1200)}[s.Intn(4)] // the per-record tables have no entry limit on the wire
+	}
 	m := hmap.NewIntKeyMap(n+1, 1)
 	for i := 0; i < n; i++ {
-		m.Put(int32(s.Int64()), pack.NewTimeCount(int32(s.Int64()), int32(s.Int64()), s.Int64()))
+		m.Put(int32(s.Int64())+int32(i), pack.NewTimeCount(int32(s.Int64()), int32(s.Int64()), s.Int64()))
 	}
 	return m
 }
